@@ -198,23 +198,27 @@ theorem smb_reencode (c : Cmd) (hmem : c ∈ commands) (hm : Mirror c = true) (e
 
 /-! ## the loop fragment: list fields marshalled by a `range` loop and read back by a counted loop -/
 
-/-- **Which commands the loop fragment adds**: exactly these four satisfy `MirrorLoops` without satisfying
+/-- **Which commands the loop fragment adds**: exactly these six satisfy `MirrorLoops` without satisfying
     `Mirror`.  LockingAndxRequest: two lists of LOCKING_ANDX_RANGE64 written by `range` loops and read back by
     counted loops running to `NumberOfRequestedUnlocks` / `NumberOfRequestedLocks` through 20-byte windows;
     OpenAndxRequest: the fixed array `Reserved [2]USHORT` written by a `range` loop and filled in place;
     TransactionRequest: `Setup []USHORT` read back by a loop running to `SetupCount` into a freshly made list;
-    WriteMpxRequest: straight-line, its last buffer read not followed by an advance of `offset`. -/
+    WriteAndxRequest, WriteRawRequest: `OffsetHigh` written iff non-zero as the last parameter field and read under
+    `WordCount == 14`, the word count the block has with it (12 without);
+    WriteMpxRequest (and WriteAndxRequest): the last buffer read not followed by an advance of `offset`. -/
 theorem loop_mirror_commands :
     (commands.filter (fun c => MirrorLoops c && !Mirror c)).map (·.name) =
-      ["LockingAndxRequest", "OpenAndxRequest", "TransactionRequest", "WriteMpxRequest"] := by decide +kernel
+      ["LockingAndxRequest", "OpenAndxRequest", "TransactionRequest", "WriteAndxRequest", "WriteMpxRequest",
+       "WriteRawRequest"] := by decide +kernel
 
 /-- `MirrorLoops` extends `Mirror`: each of the 90 `Mirror` commands satisfies it -/
 theorem mirror_loops_extends : commands.all (fun c => !Mirror c || MirrorLoops c) = true := by decide +kernel
 
-/-- **What is still outside**: exactly these 21 commands satisfy neither predicate; for them the round trip is
-    decided by the correspondence runs only.  Fifteen carry a recorded structural finding
+/-- **What is still outside**: exactly these 19 commands satisfy neither predicate; for them the round trip is
+    decided by the correspondence runs only.  Thirteen carry a recorded structural finding
     (`known_roundtrip_findings`: a field never marshalled / never unmarshalled, the whole buffer read three times,
-    a conditional field, a 43-byte window for 53-byte entries); of the other six FindCloseResponse and
+    `OffsetHigh` of ReadRawRequest under a word count its own Marshal never reaches, the optional array of
+    WriteAndCloseRequest, a 43-byte window for 53-byte entries); of the other six FindCloseResponse and
     WriteAndUnlockRequest decode a nested string from the whole block instead of from `offset`, RenameRequest
     reads its attributes without checking the error or using the count, WriteRequest puts its buffer ahead of the
     parameter block, and the two SESSION_SETUP_ANDX structures size a padding field by arithmetic on
@@ -225,8 +229,7 @@ theorem non_mirror_loops_commands :
        "NegotiateRequest", "NegotiateResponse", "OpenAndxResponse",
        "QueryInformation2Response", "QueryInformationResponse", "ReadRawRequest", "ReadResponse", "RenameRequest",
        "SessionSetupAndxRequest", "SessionSetupAndxResponse", "TreeConnectRequest",
-       "WriteAndCloseRequest", "WriteAndUnlockRequest", "WriteAndxRequest", "WriteRawRequest",
-       "WriteRequest"] := by decide +kernel
+       "WriteAndCloseRequest", "WriteAndUnlockRequest", "WriteRequest"] := by decide +kernel
 
 /-- **C04, generic round trip over the loop fragment.**  As `mirror_roundtrip`, for every command whose
     regenerated programs satisfy `MirrorLoops`: the only statements outside the straight-line fragment are
@@ -237,22 +240,27 @@ theorem non_mirror_loops_commands :
     `Spec/SmbRelations.lean`, `length_relations_pinned`), that its integers fit their width, and of nested
     elements that each is in its type's domain and is left as it is by its own `Marshal` (`tupOk`, `tupFix`: the
     loop marshals a copy, so the sender keeps the element as it was).  The codec laws are needed on the element
-    types too (`Cmd.subTypesL`).  `arraysSized`: a fixed array of the receiving structure has the length of
-    the sender's — in Go both have the declared length `[n]T`; the model's environments are untyped. -/
+    types too (`Cmd.subTypesL`).  An integer emitted iff non-zero (`if c.F != 0 { … }`, last parameter field behind
+    fixed-width fields) against `if WordCount == k { … }`: both forms round-trip, `WordCount` telling which
+    (`optTrailing`: `k` is the word count with the field and not the one without).
+    `receiverFits` is what Unmarshal takes from the receiving structure instead of from the wire: a fixed array has
+    the length of the sender's — in Go both have the declared length `[n]T`; the model's environments are untyped —,
+    and an optional integer the sender holds as zero is zero in the receiver (a structure fresh from `New…()`; decoding
+    the short form into a structure that holds a stale value keeps it: `optional_stale_counterexample`). -/
 theorem mirror_loops_roundtrip {C : Codecs} {T : String → Prop} (hC : LawfulCodecs C T) (c : Cmd)
     (hm : MirrorLoops c = true) (hT : ∀ t ∈ c.subTypesL, T t) (env0 env : Env) (hc : consistent C c env = true)
-    (hsized : arraysSized c env0 env = true) :
+    (hrecv : receiverFits c env0 env = true) :
     ∃ bs env' d, encodeCmd C c env = .ok bs ∧ envAfterMarshal C c env = .ok env' ∧
       decodeCmd C c env0 bs = .ok d ∧ ∀ f ∈ c.roundTripFields, d.get f = env'.get f :=
-  mirror_loops_roundtrip_core hC c hm hT env0 env hc hsized
+  mirror_loops_roundtrip_core hC c hm hT env0 env hc hrecv
 
 /-- **C04, re-encoding over the loop fragment** (as `mirror_reencode`): marshalling the decoded structure
     again yields the same bytes. -/
 theorem mirror_loops_reencode {C : Codecs} {T F : String → Prop} (hC : LawfulCodecs C T) (hF : LawfulFmt C F) (c : Cmd)
     (hm : MirrorLoops c = true) (hre : ReencodableL c = true) (hT : ∀ t ∈ c.subTypesL, T t) (hFt : ∀ t ∈ c.fmtTypes, F t)
-    (env0 env : Env) (hc : consistent C c env = true) (hsized : arraysSized c env0 env = true) :
+    (env0 env : Env) (hc : consistent C c env = true) (hrecv : receiverFits c env0 env = true) :
     ∃ bs d, encodeCmd C c env = .ok bs ∧ decodeCmd C c env0 bs = .ok d ∧ encodeCmd C c d = .ok bs :=
-  mirror_loops_reencode_core hC hF c hm hre hT hFt env0 env hc hsized
+  mirror_loops_reencode_core hC hF c hm hre hT hFt env0 env hc hrecv
 
 /-- every nested type a `MirrorLoops` command marshals — list elements included — is one of the lawful ones, and
     every such command has the re-encodable shape, setting buffer formats on `SMB_STRING` fields only -/
@@ -271,24 +279,23 @@ private theorem loops_side (c : Cmd) (hmem : c ∈ commands) (hm : MirrorLoops c
     beq_iff_eq] at h
   exact ⟨h.1.1, h.1.2, h.2⟩
 
-/-- **C04 for the regenerated commands, loop fragment.**  Each of the 94 `MirrorLoops` command structures of this
+/-- **C04 for the regenerated commands, loop fragment.**  Each of the 96 `MirrorLoops` command structures of this
     tree round-trips every declared field and its AndX block, for all internally consistent field values and all
-    initial states of the receiver whose fixed arrays have their declared length, with the C06 models as nested
-    codecs. -/
+    initial states of the receiver that fit (`receiverFits`), with the C06 models as nested codecs. -/
 theorem smb_loops_roundtrip (c : Cmd) (hmem : c ∈ commands) (hm : MirrorLoops c = true) (env0 env : Env)
-    (hc : consistent Manticore.SmbCodecs.std c env = true) (hsized : arraysSized c env0 env = true) :
+    (hc : consistent Manticore.SmbCodecs.std c env = true) (hrecv : receiverFits c env0 env = true) :
     ∃ bs env' d, encodeCmd Manticore.SmbCodecs.std c env = .ok bs ∧
       envAfterMarshal Manticore.SmbCodecs.std c env = .ok env' ∧
       decodeCmd Manticore.SmbCodecs.std c env0 bs = .ok d ∧ ∀ f ∈ c.roundTripFields, d.get f = env'.get f :=
-  mirror_loops_roundtrip std_lawful c hm (loops_side c hmem hm).1 env0 env hc hsized
+  mirror_loops_roundtrip std_lawful c hm (loops_side c hmem hm).1 env0 env hc hrecv
 
 /-- **C04, re-encoding, for the regenerated commands of the loop fragment** -/
 theorem smb_loops_reencode (c : Cmd) (hmem : c ∈ commands) (hm : MirrorLoops c = true) (env0 env : Env)
-    (hc : consistent Manticore.SmbCodecs.std c env = true) (hsized : arraysSized c env0 env = true) :
+    (hc : consistent Manticore.SmbCodecs.std c env = true) (hrecv : receiverFits c env0 env = true) :
     ∃ bs d, encodeCmd Manticore.SmbCodecs.std c env = .ok bs ∧ decodeCmd Manticore.SmbCodecs.std c env0 bs = .ok d ∧
       encodeCmd Manticore.SmbCodecs.std c d = .ok bs := by
   obtain ⟨h1, h2, h3⟩ := loops_side c hmem hm
-  exact mirror_loops_reencode std_lawful std_lawful_fmt c hm h2 h1 h3 env0 env hc hsized
+  exact mirror_loops_reencode std_lawful std_lawful_fmt c hm h2 h1 h3 env0 env hc hrecv
 
 /-! ## slot locality -/
 
@@ -384,7 +391,7 @@ example : consistent Manticore.SmbCodecs.std cmd_LockingAndxRequest lockingEnv =
   simp [intsFit, relationsHold, cmd_LockingAndxRequest, lockingEnv, Env.get, wordCountOf, andxWords, r64Bytes]
   refine ⟨hax, ?_⟩
   decide +kernel
-example : arraysSized cmd_LockingAndxRequest [] lockingEnv = true := by decide +kernel
+example : receiverFits cmd_LockingAndxRequest [] lockingEnv = true := by decide +kernel
 /-- the receiver held three stale lock ranges under another count: they are replaced, not appended to -/
 example : (match encodeCmd Manticore.SmbCodecs.std cmd_LockingAndxRequest lockingEnv with
     | .ok bs => (match decodeCmd Manticore.SmbCodecs.std cmd_LockingAndxRequest
@@ -405,9 +412,9 @@ def openAndxEnv : Env :=
    ("Reserved", .ns [0x0a0b, 0x0c0d]), ("FileName", .t ([4, 1], [[0x41]]))]
 
 example : MirrorLoops cmd_OpenAndxRequest = true := by decide +kernel
-example : arraysSized cmd_OpenAndxRequest [("Reserved", .ns [0, 0])] openAndxEnv = true ∧
-    arraysSized cmd_OpenAndxRequest [] openAndxEnv = false := by decide +kernel
-/-- `arraysSized` is needed: a receiver whose array had three entries reads three words (one of them from the
+example : receiverFits cmd_OpenAndxRequest [("Reserved", .ns [0, 0])] openAndxEnv = true ∧
+    receiverFits cmd_OpenAndxRequest [] openAndxEnv = false := by decide +kernel
+/-- `receiverFits` is needed: a receiver whose array had three entries reads three words (one of them from the
     zeroed capacity behind the parameter stream) -/
 example : (match encodeCmd Manticore.SmbCodecs.std cmd_OpenAndxRequest openAndxEnv with
     | .ok bs => (match decodeCmd Manticore.SmbCodecs.std cmd_OpenAndxRequest [("Reserved", .ns [0, 0])] bs with
@@ -417,6 +424,46 @@ example : (match encodeCmd Manticore.SmbCodecs.std cmd_OpenAndxRequest openAndxE
     | _ => false) = true := by decide +kernel
 
 /-- TRANSACTION: the `Setup` words come back through the loop that runs to `SetupCount` -/
-example : MirrorLoops cmd_TransactionRequest = true ∧ arraysSized cmd_TransactionRequest [] [] = true := by decide +kernel
+example : MirrorLoops cmd_TransactionRequest = true ∧ receiverFits cmd_TransactionRequest [] [] = true := by decide +kernel
+
+/-- WRITE_ANDX, both forms: `OffsetHigh` zero → 12 words, non-zero → 14 words with the field last -/
+def writeAndxEnv (hi : Nat) : Env :=
+  [("FID", .n 0x1234), ("Offset", .n 0), ("Timeout", .n 0), ("WriteMode", .n 0), ("Remaining", .n 0),
+   ("Reserved", .n 0), ("DataLength", .n 2), ("DataOffset", .n 0x40), ("OffsetHigh", .n hi), ("Pad", .n 0), ("Data", .b [0xAA, 0xBB])]
+
+example : cmd_WriteAndxRequest ∈ commands := by simp [commands, chunk0, chunk1, chunk2, chunk3, chunk4, chunk5, chunk6, chunk7]
+example : MirrorLoops cmd_WriteAndxRequest = true ∧ MirrorLoops cmd_WriteRawRequest = true := by decide +kernel
+example : consistent Manticore.SmbCodecs.std cmd_WriteAndxRequest (writeAndxEnv 0) = true := by
+  have hrun : runM Manticore.SmbCodecs.std cmd_WriteAndxRequest (writeAndxEnv 0) =
+      .ok { P := [0x34, 0x12, 0, 0, 0, 0, 0, 0, 0, 0, 0, 0, 0, 0, 0, 0, 2, 0, 0x40, 0], D := [0, 0xAA, 0xBB], head := [],
+            env := prologueEnv true (writeAndxEnv 0) } := by rfl
+  have hax : andxOk true (writeAndxEnv 0) = true := by decide
+  unfold consistent
+  rw [hrun]
+  simp [intsFit, relationsHold, cmd_WriteAndxRequest, writeAndxEnv, prologueEnv, Env.get, Env.set, wordCountOf, andxWords,
+    andxField, defaultAndX, evalEnv]
+  exact hax
+example : consistent Manticore.SmbCodecs.std cmd_WriteAndxRequest (writeAndxEnv 0x01020304) = true := by
+  have hrun : runM Manticore.SmbCodecs.std cmd_WriteAndxRequest (writeAndxEnv 0x01020304) =
+      .ok { P := [0x34, 0x12, 0, 0, 0, 0, 0, 0, 0, 0, 0, 0, 0, 0, 0, 0, 2, 0, 0x40, 0, 4, 3, 2, 1], D := [0, 0xAA, 0xBB], head := [],
+            env := prologueEnv true (writeAndxEnv 0x01020304) } := by rfl
+  have hax : andxOk true (writeAndxEnv 0x01020304) = true := by decide
+  unfold consistent
+  rw [hrun]
+  simp [intsFit, relationsHold, cmd_WriteAndxRequest, writeAndxEnv, prologueEnv, Env.get, Env.set, wordCountOf, andxWords,
+    andxField, defaultAndX, evalEnv]
+  exact hax
+example : receiverFits cmd_WriteAndxRequest [("OffsetHigh", .n 0)] (writeAndxEnv 0) = true ∧
+    receiverFits cmd_WriteAndxRequest [("OffsetHigh", .n 5)] (writeAndxEnv 7) = true ∧
+    receiverFits cmd_WriteAndxRequest [("OffsetHigh", .n 5)] (writeAndxEnv 0) = false := by decide +kernel
+/-- `receiverFits` is needed (C04 finding kind `conditional-field`): the 12-word form decoded into a structure that
+    still holds `OffsetHigh = 5` leaves the 5 there -/
+theorem optional_stale_counterexample :
+    (match encodeCmd Manticore.SmbCodecs.std cmd_WriteAndxRequest (writeAndxEnv 0) with
+    | .ok bs => (match decodeCmd Manticore.SmbCodecs.std cmd_WriteAndxRequest [("OffsetHigh", .n 0)] bs,
+                       decodeCmd Manticore.SmbCodecs.std cmd_WriteAndxRequest [("OffsetHigh", .n 5)] bs with
+        | .ok d, .ok d5 => d.get "OffsetHigh" == some (.n 0) && d5.get "OffsetHigh" == some (.n 5)
+        | _, _ => false)
+    | _ => false) = true := by decide +kernel
 
 end Manticore.C04
